@@ -118,8 +118,8 @@ def enumerate_hierarchies(tier: str):
             if interesting(h):
                 yield h, "abstract"
     # extras on a private base of a simple chain / fork
-    for extras in itertools.chain.from_iterable(itertools.combinations(["private_method", "property", "static", "nested", "classmethod"], k) for k in (1, 2, 5)):
-        for graph in ([(), (0,)], [(), (0,), (1,)], [(), (), (0, 1)]):
+    for extras in itertools.chain.from_iterable(itertools.combinations(["private_method", "property", "static", "nested", "classmethod", "dunder", "nested_same"], k) for k in (1, 2, 7)):
+        for graph in ([(), (0,)], [(), (0,), (1,)], [(), (), (0, 1)], [(), (0,), (0,), (1, 2)]):
             n = len(graph)
             h = tuple(Cls(i < n - 1, tuple(graph[i]), ("m1",) if i == 0 else (), tuple(extras) if i < n - 1 else ()) for i in range(n))
             yield h, "extras"
@@ -148,6 +148,11 @@ def render(h: tuple[Cls, ...], u: str, split: bool | str) -> dict[str, str]:
             body.append(f"    @staticmethod\n    def sm{u}x{i}(a: int) -> {TYPES[i]}:\n        ...\n")
         if "classmethod" in c.extras:
             body.append(f"    @classmethod\n    def cm{u}x{i}(cls) -> {TYPES[i]}:\n        ...\n")
+        if "dunder" in c.extras:
+            body.append(f"    def __call__(self, a: int) -> {TYPES[i]}:\n        ...\n")
+        if "nested_same" in c.extras:
+            # a public nested class that carries the SAME name in every class of the hierarchy that has it
+            body.append(f"    class Meta{u}:\n        def mm{u}x{i}(self) -> int:\n            ...\n")
         if "nested" in c.extras:
             body.append(f"    class Nest{u}x{i}:\n        def nm{u}(self) -> int:\n            ...\n")
         text = f"class {cname(i)}{bases}:\n" + ("\n".join(body) if body else "    pass\n")
@@ -198,7 +203,19 @@ def expectations(h: tuple[Cls, ...]):
         for a in dist:
             for e in h[a].extras:
                 (extras_forbidden if e == "private_method" else extras_required).append((e, a))
-        out.append((ci, [b for b in c.bases if not h[b].private], required, extras_required, extras_forbidden, set(dist)))
+        # the superclass list: the direct public bases and, in place of a private base, the public classes that base derives
+        # from (directly or through further private classes) - a public ancestor does not vanish behind a private one
+        subs: list[int] = []
+
+        def collect(bases) -> None:  # noqa: ANN001
+            for b in bases:
+                if h[b].private:
+                    collect(h[b].bases)
+                elif b not in subs:
+                    subs.append(b)
+
+        collect(c.bases)
+        out.append((ci, subs, required, extras_required, extras_forbidden, set(dist)))
     return out
 
 
@@ -240,7 +257,7 @@ def run(rep: Report, tier: str, seed: int) -> None:
             units.append((u3, h, family + ":same", "same"))
     rep.rule = (
         f"all class hierarchies of <= {3 if tier == 'quick' else 4} classes (each public/private, ordered base lists of size <= 2 over earlier classes, method subsets of {{m1,m2}} with a distinct return type per definer) that have a consistent MRO and a public class with a private base;"
-        " 4-5 class chains, forks, diamonds, ladders under all privacy assignments x 3 method placements; abstract public classes (ABC next to the other bases) over a chain, a fork and a diamond; a property defined by every non-empty subset of the classes of a 2/3-chain, a fork and a diamond under all privacy assignments; private bases with private method / property / static / class method / nested class; private bases in a second module; private bases that carry the same class names in every module; the 'extras' family and all hierarchies of <= 3 classes also under naming conversion (method names contain an underscore); one hierarchy per module; distinct = distinct hierarchy"
+        " 4-5 class chains, forks, diamonds, ladders under all privacy assignments x 3 method placements; abstract public classes (ABC next to the other bases) over a chain, a fork and a diamond; a property defined by every non-empty subset of the classes of a 2/3-chain, a fork and a diamond under all privacy assignments; private bases with private method / property / static / class method / nested class / equally named nested classes / dunder method (__call__), over chains, a fork and a diamond; public classes behind private bases (they belong to the superclass list); private bases in a second module; private bases that carry the same class names in every module; private bases written through a module-level alias (in the public class and one level up); the 'extras' family and all hierarchies of <= 3 classes also under naming conversion (method names contain an underscore); one hierarchy per module; distinct = distinct hierarchy"
     )
 
     def label(h, family) -> str:
@@ -301,10 +318,10 @@ def run(rep: Report, tier: str, seed: int) -> None:
                     else:
                         rep.ok("precedence")
                 for e, a in ex_req:
-                    nm = {"property": f"pr{u}x{a}", "static": f"sm{u}x{a}", "nested": f"Nest{u}x{a}", "classmethod": f"cm{u}x{a}"}[e]
-                    kind = {"property": "attr", "static": "fun", "nested": "class", "classmethod": "fun"}[e]
+                    nm = {"property": f"pr{u}x{a}", "static": f"sm{u}x{a}", "nested": f"Nest{u}x{a}", "classmethod": f"cm{u}x{a}", "dunder": "__call__", "nested_same": f"Meta{u}"}[e]
+                    kind = {"property": "attr", "static": "fun", "nested": "class", "classmethod": "fun", "dunder": "fun", "nested_same": "class"}[e]
                     if not any(x.py_name == nm and x.kind == kind for x in d.members):
-                        if e in ("static", "classmethod"):
+                        if e in ("static", "classmethod", "dunder"):
                             viol("inherited-present", f"missing-{e}", {"member": nm})
                         else:
                             rep.extra[f"inherited_{e}_missing(dontcare)"] = rep.extra.get(f"inherited_{e}_missing(dontcare)", 0) + 1
@@ -335,6 +352,19 @@ def run(rep: Report, tier: str, seed: int) -> None:
         "public-base": ({"sd2/__init__.py": "", "sd2/a.py": "class Base:\n    def from_a(self) -> int:\n        return 1\n", "sd2/Xa.py": "class Base:\n    def from_xa(self) -> int:\n        return 1\n",
                          "sd2/m.py": "from .a import Base\n\n\ndef f() -> None:\n    x = Base()\n\n\nclass CDecoy2(Base):\n    pass\n"}, "CDecoy2", [], [], "vpkg.sd2.a"),
     }
+
+    # a base class that is written through a module-level ALIAS of a private class (at the public class and one level up)
+    decoys["alias-of-private-base-in-private-class"] = ({"sd3/__init__.py": "", "sd3/base.py": "class _A3:\n    def fa3(self) -> int:\n        return 1\n",
+                                                          "sd3/m.py": "from . import base\n\n_AliasA3 = base._A3\n\n\nclass _B3(_AliasA3):\n    def fb3(self) -> int:\n        return 1\n\n\nclass CDecoy3(_B3):\n    pass\n"}, "CDecoy3", ["fa3", "fb3"], [], None)
+    decoys["alias-of-private-base-same-module"] = ({"sd4/__init__.py": "", "sd4/m.py": "class _A4:\n    def fa4(self) -> int:\n        return 1\n\n\n_AliasA4 = _A4\n\n\nclass _B4(_AliasA4):\n    def fb4(self) -> int:\n        return 1\n\n\nclass CDecoy4(_B4):\n    pass\n"}, "CDecoy4", ["fa4", "fb4"], [], None)
+    decoys["alias-of-private-base-in-public-class"] = ({"sd5/__init__.py": "", "sd5/base.py": "class _A5:\n    def fa5(self) -> int:\n        return 1\n",
+                                                        "sd5/m.py": "from . import base\n\nAliasA5 = base._A5\n\n\nclass CDecoy5(AliasA5):\n    def own5(self) -> int:\n        return 1\n"}, "CDecoy5", ["fa5", "own5"], [], None)
+
+    # two private classes of the same name in modules of the same FILE name (a.py, sub/a.py); the other one is instantiated in its module
+    decoys["same-named-private-base-in-same-named-module"] = ({"sd6/__init__.py": "", "sd6/a.py": "class _Base6:\n    def from_a6(self) -> int:\n        return 1\n\n\n_default6 = _Base6()\n", "sd6/sub6/__init__.py": "",
+                                                               "sd6/sub6/a.py": "class _Base6:\n    def from_sub_a6(self) -> int:\n        return 1\n", "sd6/sub6/m.py": "from .a import _Base6\n\n\nclass CDecoy6(_Base6):\n    pass\n"}, "CDecoy6", ["from_sub_a6"], ["from_a6"], None)
+    # a private base written with type arguments
+    decoys["subscripted-private-base"] = ({"sd7/__init__.py": "", "sd7/m.py": "from typing import Generic, TypeVar\n\nT7 = TypeVar('T7')\n\n\nclass _G7(Generic[T7]):\n    def get7(self) -> int:\n        return 1\n\n\nclass CDecoy7(_G7[int]):\n    def own7(self) -> int:\n        return 1\n"}, "CDecoy7", ["get7", "own7"], [], None)
 
     def build_d(us):
         files = {f"{PKG}/__init__.py": ""}
